@@ -16,6 +16,12 @@ OPS = {
     "eqi": (3, "((a)==(b))"), "nei": (3, "((a)!=(b))"), "lti": (3, "((a)<(b))"), "lei": (3, "((a)<=(b))"), "gti": (3, "((a)>(b))"),
     "gei": (3, "((a)>=(b))"), "andb": (4, "((a)&&(b))"), "orb": (4, "((a)||(b))"), "notb": (5, "(!(a))"),
 }
+OPS.update({
+    "streq": (6, "1"), "strne": (6, "0"),      # spec macro body = which truth value content-equal strings must give
+    "addf": (7, "((a)+(b))"), "subf": (7, "((a)-(b))"), "mulf": (7, "((a)*(b))"), "divf": (7, "((a)/(b))"),
+    "eqf": (8, "((a)==(b))"), "nef": (8, "((a)!=(b))"), "ltf": (8, "((a)<(b))"), "lef": (8, "((a)<=(b))"), "gtf": (8, "((a)>(b))"),
+    "gef": (8, "((a)>=(b))"),
+})
 ACC = {   # name -> (shape, ElementType, value expression for set)
     "at_int": (10, 1, "0"), "at_float": (10, 2, "0"), "at_string": (10, 3, "0"), "at_bool": (10, 4, "0"),
     "set_int": (11, 1, "7"), "set_float": (11, 2, "7.0"), "set_string": (11, 3, '"seven"'),
@@ -68,7 +74,19 @@ def _args_tmpl(inputs, o, work=None):
     if p.returncode != 0:
         return ["--build-failed", (" ".join(cmd) + " :: " + p.stdout[-600:]).replace("\n", " | ")]
     g = lambda k: str(_num(inputs.get(k)))
-    return [case, str(mode), g("in_a"), g("in_b"), g("in_i")]
+
+    def hexstr(base):       # in_sa.b[3l] style element assignments (or a whole-struct value) -> hex of the buffer
+        import re
+        out = {}
+        whole = inputs.get(base)
+        if isinstance(whole, dict) and isinstance(whole.get("b"), list):
+            out = {i: _num(v) for i, v in enumerate(whole["b"])}
+        for k, v in inputs.items():
+            m = re.match(re.escape(base) + r"\.b\[(\d+)l?\]$", k)
+            if m:
+                out[int(m.group(1))] = _num(v)
+        return "".join("%02x" % (out.get(i, 0) & 0xFF) for i in range(4)) + "00"
+    return [case, str(mode), g("in_a"), g("in_b"), g("in_i"), hexstr("in_sa"), hexstr("in_sb")]
 
 
 REPLAYERS = {"tmpl": {"args": _args_tmpl, "src": [], "timeout": 60}}
